@@ -65,8 +65,9 @@ def pickVal (h : Nat) : Nat :=
 def strNat (s : String) : Nat := s.toList.foldl (fun acc c => mix acc c.toNat) 7
 
 def mkState (seed : Nat) : MState :=
-  { cur := fun k => pickVal (mix (strNat k) (seed * 2 + 1)),
-    new := fun k => pickVal (mix (strNat k) (seed * 2 + 2)),
+  -- every fifth state gives ALL registers one value (comparisons between operands are decided by equality then)
+  { cur := fun k => if seed % 5 == 4 then pickVal (mix 4711 seed) else pickVal (mix (strNat k) (seed * 2 + 1)),
+    new := fun k => if seed % 5 == 4 then pickVal (mix 4711 seed) else pickVal (mix (strNat k) (seed * 2 + 2)),
     written := fun _ => false,
     mem := fun a => mix a seed % 256,
     locals := [],
